@@ -903,6 +903,7 @@ def run(tier: str, replay: str | None = None):
             rep.violation({"kind": "broken-correspondence", "correspondence": "Eval.TypeEval.evaluate vs Evaluator.evaluate", "detail": str(ex)[-1500:]}, no_failing_input=True)
 
     failing, known, corr = [], [], []
+    undecided = 0
     hist = {"mode": {}, "impl_nrets": {}, "impl_nerrs": {}, "bind": {}, "cond_kinds": {}}
     distinct = set()
     n_eval = 0
@@ -980,6 +981,8 @@ def run(tier: str, replay: str | None = None):
                     sup = set(dset["rets"]) >= want_r and set(dset["errs"]) >= want_e
                     if sup and fallthrough_after_return(case["body"]) and m is not None and m == dset:
                         known.append(("C20-fallthrough-not-narrowed", ci, ki))
+                    elif sup and fallthrough_after_return(case["body"]) and m is None and not model_ok:
+                        undecided += 1  # inside the finding's guard, but the model could not be built: the broken obligation is reported instead
                     else:
                         failing.append((ci, ki, "union call is not the union of the member calls" + (" (superset)" if sup else " (members' results missing: unsound)"), dset, want))
 
@@ -1028,6 +1031,7 @@ def run(tier: str, replay: str | None = None):
         correspondence_mismatches=len(corr),
         oracle_failures=len(failing),
         known_finding_hits=len(known),
+        undecided_without_model=undecided,
         input_distribution=hist,
         exhaustive=False,
     )
